@@ -69,6 +69,20 @@ func (p *Program) InlineNewHelpers(baseline *Baseline) {
 			}
 			in.cands[obj] = fd
 		}
+		// references before any rewriting: a new method nobody calls by name is reached through an
+		// interface (a new io.Reader, a new option type) - it stays in the inventory as a function of its own
+		before := map[*types.Func]int{}
+		for _, fd := range p.AllFuncDeclsRaw(pkg) {
+			self, _ := in.info.Defs[fd.Name].(*types.Func)
+			ast.Inspect(fd.Body, func(n ast.Node) bool {
+				if id, ok := n.(*ast.Ident); ok {
+					if f, ok := in.info.Uses[id].(*types.Func); ok && in.cands[f] != nil && f != self {
+						before[f]++
+					}
+				}
+				return true
+			})
+		}
 		for round := 0; round < 4; round++ {
 			changed := false
 			for _, fd := range p.AllFuncDeclsRaw(pkg) {
@@ -95,7 +109,7 @@ func (p *Program) InlineNewHelpers(baseline *Baseline) {
 			})
 		}
 		for f, fd := range in.cands {
-			if refs[f] == 0 {
+			if refs[f] == 0 && before[f] > 0 {
 				p.hidden[fd] = true
 				in.Inlined = append(in.Inlined, FuncName(fd))
 			}
